@@ -10,7 +10,7 @@ from sx.harness import exc_site
 
 PROPERTY = "C01"
 LEVEL = "model_checking"
-OPTIONS = {"quick": {"max_paths": 50000, "unit_budget_s": 900}, "thorough": {"max_paths": 500000, "unit_budget_s": 3000}}
+OPTIONS = {"quick": {"max_paths": 50000, "unit_budget_s": 600}, "thorough": {"max_paths": 500000, "unit_budget_s": 3000}}
 BOUNDS = {
     "quick": {"ints": "|v| < 2^63, every value symbolic (message id, version, limits, page size); result code: any value 0..2^31-1 (member / non-member)", "text": "1 symbolic printable-ASCII char per text field, plus each text field in turn 2 code points over all Unicode scalar values", "octets": "2 symbolic octets per octet-string field; thresholds 127/128/256/65536 one field at a time", "lists": "0..2 elements", "filters": "every leaf form, and/or/not over leaves, two depth-3 trees, not^40 and and/or^40 chains", "controls": "0..2 controls of every form (generic +/- value, paged, show-deleted, show-deactivated)"},
     "thorough": {"ints": "|v| < 2^127", "text": "rich field 3 code points", "octets": "thresholds 127/128/255/256/65535/65536 in every octet-string position", "lists": "0..2", "filters": "quick set + and/not over every leaf form + depth 4", "controls": "same"},
